@@ -519,6 +519,16 @@ def _c04_libfuzzer(bdir, res, tier, seed):
         res.harness_fail.append("libfuzzer build failed: %s" % str(e)[-800:])
         return
     fdir = os.path.join(bdir, "fuzz")
+    os.makedirs(fdir)
+    dictp = os.path.join(fdir, "rtr.dict")
+    with open(dictp, "w") as f:
+        # 32-bit big-endian boundary values of length / serial fields, and (version, type) header pairs
+        for v in (0, 1, 7, 8, 9, 12, 16, 20, 24, 32, 123, 3247, 3248, 3249, 65535, 65536, 0x7fffffff, 0x80000000,
+                  0xfffffff0, 0xfffffff8, 0xfffffffc, 0xffffffff):
+            f.write('"%s"\n' % "".join("\\x%02x" % b for b in v.to_bytes(4, "big")))
+        for ver in (0, 1, 2):
+            for typ in (0, 1, 2, 3, 4, 6, 7, 8, 9, 10, 255):
+                f.write('"\\x%02x\\x%02x"\n' % (ver, typ))
 
     def one(i):
         d = os.path.join(fdir, "p%d" % i)
@@ -532,7 +542,7 @@ def _c04_libfuzzer(bdir, res, tier, seed):
         env["VERIF_FUZZ_NSEEDS"] = "96"
         env["VERIF_FUZZ_OUT"] = os.path.join(d, "monitor.out")
         cmd = [binp, "-seed=%d" % (int(seed) * 1000 + i + 1), "-runs=%d" % runs, "-max_len=6000", "-detect_leaks=0", "-rss_limit_mb=0",
-               "-timeout=60", "-use_value_profile=1", "-print_final_stats=1", "-artifact_prefix=" + art + "/", corp]
+               "-timeout=60", "-use_value_profile=1", "-print_final_stats=1", "-dict=" + dictp, "-artifact_prefix=" + art + "/", corp]
         logp = os.path.join(d, "log")
         with open(logp, "w") as lf:
             try:
@@ -541,7 +551,6 @@ def _c04_libfuzzer(bdir, res, tier, seed):
                 rc = "watchdog"
         return i, rc, logp, art
 
-    os.makedirs(fdir)
     with ThreadPoolExecutor(max_workers=nproc) as ex:
         outs = list(ex.map(one, range(nproc)))
     cov = ft = 0
